@@ -45,13 +45,28 @@ theorem inv_pushObj {κ : Nat → String} {s : State} (h : InvK κ s) (n : Nat) 
 
 /-! ### `Atoms.__init__` -/
 
+/-- the object has the two properties every `Atoms` is constructed with. -/
+def HasAP (ob : AtomsObj) : Prop := (ob.find "atype").isSome ∧ (ob.find "pos").isSome
+
+theorem find_persists {s s' : State} (hle : Le s s') (o : Nat) (key : String)
+    (h : ((s.obj o).find key).isSome) : ((s'.obj o).find key).isSome := by
+  by_cases ho : o < s.objs.length
+  · cases hf : (s.obj o).find key with
+    | none => simp [hf] at h
+    | some a => rw [(hle.obj o ho).2 key a hf]; rfl
+  · rw [obj_ge s o (Nat.le_of_not_lt ho)] at h
+    simp [AtomsObj.find, emptyObj] at h
+
+theorem HasAP.persists {s s' : State} (hle : Le s s') (o : Nat) (h : HasAP (s.obj o)) : HasAP (s'.obj o) :=
+  ⟨find_persists hle o _ h.1, find_persists hle o _ h.2⟩
+
 /-- what a constructor call leaves behind: nothing when it raised; one more object, with an `atype`
     property, when it returned. -/
 def Made (κ : Nat → String) (s : State) (r : Except Err Nat) (s' : State) : Prop :=
   ∃ κ', InvK κ' s' ∧ Ext κ s κ' s' ∧ s'.syss = s.syss ∧
     (∀ e, r = .error e → s' = s) ∧
     (∀ o, r = .ok o → o = s.objs.length ∧ s'.objs.length = s.objs.length + 1 ∧
-      ((s'.obj o).find "atype").isSome)
+      HasAP (s'.obj o))
 
 theorem Made.error {κ : Nat → String} {s : State} (h : InvK κ s) (e : Err) : Made κ s (.error e) s :=
   ⟨κ, h, Ext.refl κ s, rfl, fun _ _ => rfl, fun o ho => by cases ho⟩
@@ -106,11 +121,12 @@ theorem inv_mkAtoms {κ : Nat → String} {s : State} (h : InvK κ s) (natoms : 
       have hfa := hfind2 rfl ho1
       rw [post_bind]
       apply Post.mono (inv_viewSet hinv2 s.objs.length "pos" posS (hposS.mono (hext1.trans hext2)))
-      intro r s3 ⟨⟨κ3, hinv3, hext3, hlen3, hsys3⟩, _⟩
+      intro r s3 ⟨⟨κ3, hinv3, hext3, hlen3, hsys3⟩, hfind3⟩
       cases r with
       | error e => exact Made.error h e
       | ok u =>
         simp only []
+        have hfp := hfind3 rfl (by rw [hlen2]; exact ho1)
         rw [post_bind]
         have hloop := post_forEach_ghost extra (fun kv => viewSet s.objs.length kv.1 kv.2)
           (fun g st => InvK g st ∧ Ext κ s g st ∧ st.objs.length = s1.objs.length ∧ st.syss = s.syss)
@@ -135,17 +151,13 @@ theorem inv_mkAtoms {κ : Nat → String} {s : State} (h : InvK κ s) (natoms : 
             injection this with this; exact this.symm
           subst this
           refine ⟨rfl, by rw [hlen4, hlen1], ?_⟩
-          -- the `atype` binding made by the first `viewSet` is still there
+          -- the bindings made by the first two `viewSet`s are still there
           have hle24 : Le s2 s4 := hext3.le.trans hext34.le
-          have ho2 : s.objs.length < s2.objs.length := by rw [hlen2]; exact ho1
-          cases hf : (s2.obj s.objs.length).find "atype" with
-          | none => simp [hf] at hfa
-          | some a => rw [(hle24.obj _ ho2).2 "atype" a hf]; rfl
-  repeat' (first
-    | (rw [post_bind_fail]; exact Made.error h _)
-    | (exact Post.mono (key _) (fun r s' hq => by cases r <;> exact hq))
-    | rw [post_bind_pure]
-    | split)
+          exact ⟨find_persists hle24 _ _ hfa, find_persists hext34.le _ _ hfp⟩
+  rw [post_bind_liftE]
+  split
+  · exact Post.mono (key _) (fun r s' hq => by cases r <;> exact hq)
+  · exact Made.error h _
 
 /-! ### indices -/
 
@@ -815,7 +827,7 @@ theorem zeros_ok (dt : DType) (n : Nat) (tr : List Nat) :
 /-- a constructor call followed by steps that create no object. -/
 theorem Made.extend {κ κ1 κ2 : Nat → String} {s s1 s2 : State} {o : Nat} (hext1 : Ext κ s κ1 s1)
     (hsys1 : s1.syss = s.syss) (ho : o = s.objs.length) (hlen1 : s1.objs.length = s.objs.length + 1)
-    (hat1 : ((s1.obj o).find "atype").isSome) (hinv2 : InvK κ2 s2) (hext2 : Ext κ1 s1 κ2 s2)
+    (hat1 : HasAP (s1.obj o)) (hinv2 : InvK κ2 s2) (hext2 : Ext κ1 s1 κ2 s2)
     (hlen2 : s2.objs.length = s1.objs.length) (hsys2 : s2.syss = s1.syss) : Made κ s (.ok o) s2 := by
   refine ⟨κ2, hinv2, hext1.trans hext2, by rw [hsys2, hsys1], ?_, ?_⟩
   · intro e he; cases he
@@ -824,20 +836,7 @@ theorem Made.extend {κ κ1 κ2 : Nat → String} {s s1 s2 : State} {o : Nat} (h
       have : (Except.ok o : Except Err Nat) = .ok o' := ho'
       injection this with this; exact this.symm
     subst this
-    refine ⟨ho, by rw [hlen2, hlen1], ?_⟩
-    have hlt : o' < s1.objs.length := by omega
-    cases hf : (s1.obj o').find "atype" with
-    | none => simp [hf] at hat1
-    | some a => rw [(hext2.le.obj _ hlt).2 "atype" a hf]; rfl
-
-theorem find_persists {s s' : State} (hle : Le s s') (o : Nat) (key : String)
-    (h : ((s.obj o).find key).isSome) : ((s'.obj o).find key).isSome := by
-  by_cases ho : o < s.objs.length
-  · cases hf : (s.obj o).find key with
-    | none => simp [hf] at h
-    | some a => rw [(hle.obj o ho).2 key a hf]; rfl
-  · rw [obj_ge s o (Nat.le_of_not_lt ho)] at h
-    simp [AtomsObj.find, emptyObj] at h
+    exact ⟨ho, by rw [hlen2, hlen1], hat1.persists hext2.le o'⟩
 
 theorem inv_extendWith {κ : Nat → String} {s : State} (h : InvK κ s) (o donor : Nat)
     (hdon : ((s.obj donor).find "atype").isSome) : Post (extendWith o donor) s (Made κ s) := by
@@ -944,7 +943,7 @@ theorem inv_extendWith {κ : Nat → String} {s : State} (h : InvK κ s) (o dono
 /-! ### composition: `Good` -/
 
 /-- between operations every object has an `atype` property (`Atoms.__init__` always sets it). -/
-def Boundary (s : State) : Prop := ∀ o, o < s.objs.length → ((s.obj o).find "atype").isSome
+def Boundary (s : State) : Prop := ∀ o, o < s.objs.length → HasAP (s.obj o)
 
 /-- the invariant is re-established (for an extension of the ghost) and the boundary condition kept. -/
 def Good (κ : Nat → String) (s s' : State) : Prop :=
@@ -955,7 +954,7 @@ theorem Good.refl {κ : Nat → String} {s : State} (h : InvK κ s) : Good κ s 
 theorem Boundary.of_le {s s' : State} (hb : Boundary s) (hle : Le s s') (hlen : s'.objs.length = s.objs.length) :
     Boundary s' := by
   intro o ho
-  exact find_persists hle o _ (hb o (by omega))
+  exact (hb o (by omega)).persists hle o
 
 theorem Good.of_kept {κ : Nat → String} {s s' : State} (h : Kept κ s s') : Good κ s s' := by
   obtain ⟨κ', hinv, hext, hlen, _⟩ := h
@@ -971,7 +970,7 @@ theorem Made.boundary {κ : Nat → String} {s s' : State} {r : Except Err Nat} 
     obtain ⟨ho, hlen, hat⟩ := hok o rfl
     intro o' ho'
     by_cases hlt : o' < s.objs.length
-    · exact find_persists hext.le o' _ (hb o' hlt)
+    · exact (hb o' hlt).persists hext.le o'
     · have : o' = o := by omega
       rw [this]; exact hat
 
@@ -996,7 +995,7 @@ theorem Made.lt {κ : Nat → String} {s s' : State} {o : Nat} (h : Made κ s (.
 
 /-- post-condition of the operations that return a new `Atoms`. -/
 def GoodObj (κ : Nat → String) (s : State) (r : Except Err Nat) (s' : State) : Prop :=
-  Good κ s s' ∧ ∀ o, r = .ok o → o < s'.objs.length ∧ ((s'.obj o).find "atype").isSome
+  Good κ s s' ∧ ∀ o, r = .ok o → o < s'.objs.length ∧ HasAP (s'.obj o)
 
 theorem GoodObj.of_made {κ : Nat → String} {s s' : State} {r : Except Err Nat} (h : Made κ s r s') :
     GoodObj κ s r s' := by
@@ -1024,7 +1023,7 @@ theorem inv_extendInt {κ : Nat → String} {s : State} (h : InvK κ s) (o : Nat
     have hb1 := hm1.boundary
     obtain ⟨κ1, hinv1, hext1, _, _, hok1⟩ := hm1
     obtain ⟨_, _, hat1⟩ := hok1 d rfl
-    apply Post.mono (inv_extendWith hinv1 o d hat1)
+    apply Post.mono (inv_extendWith hinv1 o d hat1.1)
     intro r s2 hm2
     cases r with
     | error e => exact GoodObj.error h e
